@@ -954,3 +954,37 @@ Section Compose.
     - unfold Resolve.resolve, Spec.C10.well_formed_10. rewrite B. split; [intros [c [b H]]; discriminate|intros [H _]; discriminate].
   Qed.
 End Compose.
+
+(** the hypothesis of the composition theorem, executable (evaluated on every declaration the
+    check runs: Exec/DeriveCase.v [holds10]) *)
+Definition attr_shapedb (a : nested) : bool := match a with NLit _ _ => false | _ => true end.
+Definition decl_shapedb (d : rdecl) : bool :=
+  forallb attr_shapedb (rd_attrs d)
+  && match rd_body d with
+     | RStruct style rfs _ =>
+         forallb (fun rf => forallb attr_shapedb (rf_attrs rf)) rfs
+         && match style with
+            | StTuple => forallb (fun rf => match rf_ident rf with None => true | Some _ => false end) rfs
+            | _ => true
+            end
+     | REnum rvs =>
+         forallb (fun rv => forallb attr_shapedb (rv_attrs rv)
+                            && forallb (fun rf => forallb attr_shapedb (rf_attrs rf)) (rv_fields rv)) rvs
+     | RUnion => true
+     end.
+
+Lemma attrs_shapedb_sound l : forallb attr_shapedb l = true -> Forall attr_shaped l.
+Proof.
+  intros H. apply Forall_forall. intros a Hin. rewrite forallb_forall in H. specialize (H a Hin). destruct a; try exact I. discriminate.
+Qed.
+
+Lemma decl_shapedb_sound d : decl_shapedb d = true -> decl_shaped d.
+Proof.
+  unfold decl_shapedb, decl_shaped. intros H. apply andb_true_iff in H as [H1 H2]. split; [now apply attrs_shapedb_sound|].
+  destruct (rd_body d) as [style rfs fspan|rvs|]; [| |exact I].
+  - apply andb_true_iff in H2 as [H2 H3]. split.
+    + apply Forall_forall. intros rf Hin. rewrite forallb_forall in H2. now apply attrs_shapedb_sound, H2.
+    + intros ->. apply Forall_forall. intros rf Hin. rewrite forallb_forall in H3. specialize (H3 rf Hin). now destruct (rf_ident rf).
+  - apply Forall_forall. intros rv Hin. rewrite forallb_forall in H2. specialize (H2 rv Hin). apply andb_true_iff in H2 as [A B].
+    split; [now apply attrs_shapedb_sound|]. apply Forall_forall. intros rf Hf. rewrite forallb_forall in B. now apply attrs_shapedb_sound, B.
+Qed.
